@@ -138,6 +138,8 @@ func compileRepeat
 func (*Engine).Flush
   props C15
   modifies *
+  before ingestPending every-run-of-the-partition-was-looked-at-for-completion: $done2
+  before emitLazy every-run-of-the-partition-was-looked-at-for-completion: $done2
   before ingestPending only-this-partitions-runs: forall(j, 0, len(completions), exists(k, 0, len(p.runs), completions[j] == p.runs[k]))
   before emitLazy only-this-partitions-runs: forall(j, 0, len(completions), exists(k, 0, len(p.runs), completions[j] == p.runs[k]))
   loop 2 invariant forall(j, 0, len(completions), exists(k, 0, $i, completions[j] == $s[k]))
@@ -203,6 +205,7 @@ func (*Engine).getPartition
 
 func (*Engine).advance
   props C15
+  atreturn every-state-the-run-could-move-on-from-is-tried: $done1
   ensures every-successor-extends-this-run-by-this-row: forall(i, 0, len(result), result[i] != nil && fresh(result[i]) && result[i].nrows == r.nrows + 1 && result[i].startSeq == r.startSeq && result[i].startTs == r.startTs && result[i].head != nil && result[i].head.row == row && result[i].head.prev == r.head)
   before evalDefine a-row-is-tested-against-the-define-of-the-symbol-it-would-be-labelled-with: $arg4 == row && $arg5 == m.symbol
   loop 1 invariant forall(i, 0, len(out), out[i] != nil && fresh(out[i]) && out[i].nrows == r.nrows + 1 && out[i].startSeq == r.startSeq && out[i].startTs == r.startTs && out[i].head != nil && out[i].head.row == row && out[i].head.prev == r.head)
@@ -210,6 +213,8 @@ func (*Engine).advance
 func (*Engine).step
   props C15
   modifies *
+  before emitLazy every-run-and-every-successor-and-the-seed-were-looked-at-before-matches-are-emitted: $done1
+  before ingestPending every-run-and-every-successor-and-the-seed-were-looked-at-before-matches-are-queued: $done1
   before closure a-new-match-may-start-only-at-or-after-the-skip-point: seq >= p.nextStart
   before advance only-runs-inside-within-and-the-row-cap-are-advanced: $arg2 == row
   before ingestPending completed-runs-of-this-partition-are-queued-in-this-partition: $arg1 == p
@@ -236,6 +241,7 @@ recfunc csum((a (Array Int Real)) (n Int)) Real := (ite (<= n 0) 0.0 (+ (@csum a
 
 func aggregate
   props C15
+  atreturn every-row-in-scope-is-looked-at: $done1
   option assumed_frame
   atreturn count: name == "COUNT" ==> result == ite(star, boxof(float64(cntRows), float64), boxof(float64(cntNonNull), float64))
   atreturn sum-adds-every-value: name == "SUM" ==> result == boxof(csum(arr(vals), len(vals)), float64)
@@ -256,6 +262,7 @@ immutable Engine: partMap!
 
 func NewEngine
   props C15
+  atreturn every-define-and-every-measure-is-prepared: result1 == nil ==> $done1 && $done2
   modifies *
   observe pat := resolveSymbols#2
   observe syms := resolveSymbols
